@@ -2,7 +2,7 @@
 C10 — external tensor reads never escape the model directory: property theorems.
 Model: `IrVerif/Model/Path.lean`; helper lemmas: `IrVerif/Lemmas/Path.lean`.
 -/
-import IrVerif.Lemmas.Path
+import IrVerif.Lemmas.PathReal
 namespace IrVerif.Path
 
 /-- **C10_lexical**: when check 1 (_core.py:779-789) passes, the components of
@@ -46,5 +46,233 @@ theorem C10_load_base_nonempty (modelPath : Str) : loadBase modelPath ≠ [] := 
 example : loadBaseUnfixed "model.onnx".toList = [] := by decide
 example : loadBase "model.onnx".toList = DOT := by decide
 example : loadBase "dir/model.onnx".toList = "dir".toList := by decide
+
+/-- **C10_real**: when check 2 (_core.py:792-800) passes, the components of
+`realpath(join(base, loc))` extend those of `realpath(base)` component-wise, and both consist of
+entry names only.  For every file system, cwd string, base spelling and location. -/
+theorem C10_real (fs : FS) (kfuel fuel : Nat) (cwdS : Str) (cwd : Loc) (base loc : Str)
+    (hcwd : isabs cwdS = true) (h : check2 fs kfuel fuel cwdS cwd base loc = true) :
+    comps (realpath fs kfuel fuel cwdS cwd base) <+:
+      comps (realpath fs kfuel fuel cwdS cwd (tensorPath base loc)) ∧
+    (∀ c ∈ comps (realpath fs kfuel fuel cwdS cwd (tensorPath base loc)), Clean c) ∧
+    (∀ c ∈ comps (realpath fs kfuel fuel cwdS cwd base), Clean c) := by
+  refine ⟨contained_comps _ _ h, ?_, ?_⟩ <;>
+  · unfold realpath abspath
+    rw [comps_normpath_abs _ (isabs_abspath_arg cwdS _ hcwd)]
+    exact normStack_clean _
+
+theorem checkContainment_pass (fs : FS) (kfuel fuel : Nat) (cwdS : Str) (cwd : Loc) (base loc : Str)
+    (h : checkContainment fs kfuel fuel cwdS cwd base loc = Verdict.pass) :
+    base ≠ [] ∧ check1 cwdS base loc = true ∧ check2 fs kfuel fuel cwdS cwd base loc = true ∧
+      check3 fs kfuel fuel cwdS cwd base loc = true := by
+  unfold checkContainment at h
+  split at h
+  · exact absurd h (by simp)
+  · rename_i hb
+    split at h
+    · exact absurd h (by simp)
+    · rename_i h1
+      split at h
+      · exact absurd h (by simp)
+      · rename_i h2
+        split at h
+        · exact absurd h (by simp)
+        · rename_i h3
+          exact ⟨hb, by simpa using h1, by simpa using h2, by simpa using h3⟩
+
+theorem checkContainment_skipped (fs : FS) (kfuel fuel : Nat) (cwdS : Str) (cwd : Loc) (base loc : Str)
+    (h : checkContainment fs kfuel fuel cwdS cwd base loc = Verdict.skipped) : base = [] := by
+  unfold checkContainment at h
+  split at h
+  · assumption
+  · split at h
+    · exact absurd h (by simp)
+    · split at h
+      · exact absurd h (by simp)
+      · split at h <;> exact absurd h (by simp)
+
+theorem produce_ok (ep : EntryPoint) (content : List Nat) (offset length : Nat) (bytes : List Nat)
+    (h : produce ep content offset length = ReadResult.ok bytes) :
+    bytes = (content.drop offset).take length ∧ offset + length ≤ content.length := by
+  unfold produce at h
+  cases ep <;> simp only at h <;> (repeat' split at h) <;> simp_all <;> omega
+
+theorem openFile_some (fs : FS) (kfuel : Nat) (cwd : Loc) (p : Str) (i : Nat)
+    (h : openFile fs kfuel cwd p = some i) :
+    ∃ l, kresolve fs kfuel cwd p true = some l ∧ fs.get l = some (Node.file i) := by
+  unfold openFile at h
+  cases hk : kresolve fs kfuel cwd p true with
+  | none => simp [hk] at h
+  | some l =>
+    simp only [hk] at h
+    cases hg : fs.get l with
+    | none => simp [hg] at h
+    | some n =>
+      cases n with
+      | dir => simp [hg] at h
+      | link t => simp [hg] at h
+      | file j =>
+        simp only [hg, Option.some.injEq] at h
+        subst h
+        exact ⟨l, rfl, hg⟩
+
+/-- **C10_read_safe**: with a non-empty base directory, whenever a read through any entry point
+returns bytes, then (a) the kernel resolved `join(base, loc)` to a location `l` holding a regular
+file `i` and the bytes are the requested slice of that file's content; (b) that file has at most
+one link; (c) `l` lies component-wise below the fully resolved base directory: below
+`realpath(base)`, which is the kernel's own resolution `bl` of the base whenever the base resolves;
+(d) `l` is reached through real directories only (no symbolic link left in it); (e) the path also
+stays lexically inside the base.  Any other location does not return bytes (see
+C10_all_entry_points for "raised before any open").  Hypotheses: the working directory is a chain
+of real directories and `os.getcwd()` is its rendering; the Python recursion bound is at least the
+kernel's ELOOP bound. -/
+theorem C10_read_safe (fs : FS) (kfuel fuel : Nat) (cwd : Loc) (hcwd : RealDir fs cwd)
+    (hfuel : kfuel ≤ fuel) (base loc : Str) (offset length : Nat) (ep : EntryPoint)
+    (bytes : List Nat) (hb : base ≠ [])
+    (h : (read fs kfuel fuel (render cwd) cwd base loc offset length ep).1 = ReadResult.ok bytes) :
+    ∃ l i, kresolve fs kfuel cwd (tensorPath base loc) true = some l ∧
+      fs.get l = some (Node.file i) ∧
+      bytes = ((fs.data i).drop offset).take length ∧
+      fs.nlink i ≤ 1 ∧
+      comps (realpath fs kfuel fuel (render cwd) cwd base) <+: l ∧
+      (∀ bl, kresolve fs kfuel cwd base true = some bl → bl <+: l) ∧
+      Chain fs l ∧
+      comps (abspath (render cwd) base) <+: comps (abspath (render cwd) (tensorPath base loc)) := by
+  unfold read at h
+  cases hv : checkContainment fs kfuel fuel (render cwd) cwd base loc with
+  | rej1 => simp [hv] at h
+  | rej2 => simp [hv] at h
+  | rej3 => simp [hv] at h
+  | skipped => exact absurd (checkContainment_skipped _ _ _ _ _ _ _ hv) hb
+  | pass =>
+    obtain ⟨_, hc1, hc2, hc3⟩ := checkContainment_pass _ _ _ _ _ _ _ hv
+    simp only [hv] at h
+    cases ho : openFile fs kfuel cwd (tensorPath base loc) with
+    | none => simp [ho] at h
+    | some i =>
+      simp only [ho] at h
+      obtain ⟨l, hk, hg⟩ := openFile_some _ _ _ _ _ ho
+      obtain ⟨hrp, hchain⟩ := realpath_of_kresolve fs kfuel fuel cwd hcwd _ kfuel l hk hfuel
+      have hin : comps (realpath fs kfuel fuel (render cwd) cwd base) <+: l := by
+        have := contained_comps _ _ hc2
+        rwa [hrp, comps_render l hchain.1] at this
+      refine ⟨l, i, hk, hg, (produce_ok _ _ _ _ _ h).1, ?_, hin, ?_, hchain, contained_comps _ _ hc1⟩
+      · unfold check3 at hc3
+        rw [hrp] at hc3
+        unfold statNlink at hc3
+        rw [kresolve_render fs kfuel cwd l hchain _ hg (by intro t; simp)] at hc3
+        simpa [hg] using hc3
+      · intro bl hbl
+        obtain ⟨hrb, hcb⟩ := realpath_of_kresolve fs kfuel fuel cwd hcwd _ kfuel bl hbl hfuel
+        rwa [hrb, comps_render bl hcb.1] at hin
+
+theorem read_rej (fs : FS) (kfuel fuel : Nat) (cwdS : Str) (cwd : Loc) (base loc : Str)
+    (offset length : Nat) (ep : EntryPoint) (v : Verdict)
+    (hv : checkContainment fs kfuel fuel cwdS cwd base loc = v)
+    (h : v = Verdict.rej1 ∨ v = Verdict.rej2 ∨ v = Verdict.rej3) :
+    read fs kfuel fuel cwdS cwd base loc offset length ep = (ReadResult.raised, [Ev.check v]) := by
+  unfold read
+  rw [hv]
+  rcases h with h | h | h <;> subst h <;> rfl
+
+theorem read_open (fs : FS) (kfuel fuel : Nat) (cwdS : Str) (cwd : Loc) (base loc : Str)
+    (offset length : Nat) (ep : EntryPoint) (v : Verdict)
+    (hv : checkContainment fs kfuel fuel cwdS cwd base loc = v)
+    (h : v = Verdict.pass ∨ v = Verdict.skipped) :
+    read fs kfuel fuel cwdS cwd base loc offset length ep =
+      (match openFile fs kfuel cwd (tensorPath base loc) with
+       | none => (ReadResult.raised, [Ev.check v, Ev.openEv (tensorPath base loc) none])
+       | some i => (produce ep (fs.data i) offset length,
+                    [Ev.check v, Ev.openEv (tensorPath base loc) (some i)])) := by
+  unfold read
+  rw [hv]
+  rcases h with h | h <;> subst h <;> rfl
+
+/-- **C10_all_entry_points**: for each of the modelled entry points (numpy, tobytes, `__array__`,
+serialisation to raw bytes, tofile) the first event is the containment check; a rejecting verdict
+gives `raised` with no open event at all; an open event happens only after the verdict `pass`
+(or with an empty base directory, where the check is skipped by design) and only for
+`join(base, loc)`; the verdict and the file opened do not depend on the entry point. -/
+theorem C10_all_entry_points (fs : FS) (kfuel fuel : Nat) (cwdS : Str) (cwd : Loc) (base loc : Str)
+    (offset length : Nat) (ep : EntryPoint) (v : Verdict)
+    (hv : checkContainment fs kfuel fuel cwdS cwd base loc = v) :
+    (read fs kfuel fuel cwdS cwd base loc offset length ep).2.head? = some (Ev.check v) ∧
+    ((v = Verdict.rej1 ∨ v = Verdict.rej2 ∨ v = Verdict.rej3) →
+      read fs kfuel fuel cwdS cwd base loc offset length ep = (ReadResult.raised, [Ev.check v])) ∧
+    (∀ p i, Ev.openEv p i ∈ (read fs kfuel fuel cwdS cwd base loc offset length ep).2 →
+      p = tensorPath base loc ∧ (v = Verdict.pass ∨ (v = Verdict.skipped ∧ base = []))) ∧
+    (∀ ep', (read fs kfuel fuel cwdS cwd base loc offset length ep').2 =
+      (read fs kfuel fuel cwdS cwd base loc offset length ep).2) := by
+  have hcases : (v = Verdict.rej1 ∨ v = Verdict.rej2 ∨ v = Verdict.rej3) ∨
+      (v = Verdict.pass ∨ v = Verdict.skipped) := by cases v <;> simp
+  rcases hcases with hrej | hopen
+  · have e := fun ep => read_rej fs kfuel fuel cwdS cwd base loc offset length ep v hv hrej
+    refine ⟨by rw [e]; rfl, fun _ => e ep, ?_, fun ep' => by rw [e, e]⟩
+    intro p i hm
+    rw [e] at hm
+    simp at hm
+  · have e := fun ep => read_open fs kfuel fuel cwdS cwd base loc offset length ep v hv hopen
+    refine ⟨?_, ?_, ?_, ?_⟩
+    · rw [e]; split <;> rfl
+    · intro hrej
+      rcases hopen with h | h <;> subst h <;> simp at hrej
+    · intro p i hm
+      rw [e] at hm
+      have hp : p = tensorPath base loc := by
+        split at hm <;> simp at hm <;> exact hm.1
+      refine ⟨hp, ?_⟩
+      rcases hopen with h | h
+      · exact Or.inl h
+      · exact Or.inr ⟨h, checkContainment_skipped _ _ _ _ _ _ _ (hv.trans h)⟩
+    · intro ep'
+      rw [e, e]
+      split <;> rfl
+
+end IrVerif.Path
+
+/-! ### non-vacuity of C10_read_safe: a tree /b/f on which a guarded read returns bytes -/
+namespace IrVerif.Path
+
+def exFS : FS where
+  node := fun l => if l = [['b']] then some Node.dir
+    else if l = [['b'], ['f']] then some (Node.file 1) else none
+  dnlink := fun _ => 2
+  nlink := fun _ => 1
+  data := fun _ => [10, 20, 30]
+
+theorem exFS_b : RealDir exFS [['b']] :=
+  ⟨by simpa using Chain.snoc (RealDir.root exFS) (c := ['b']) ⟨by decide, by decide, by decide, by decide⟩, by decide⟩
+
+theorem exFS_bf : Chain exFS [['b'], ['f']] := by
+  simpa using Chain.snoc exFS_b (c := ['f']) ⟨by decide, by decide, by decide, by decide⟩
+
+example : (read exFS 40 40 (render []) [] "/b".toList "f".toList 0 3 EntryPoint.numpy).1 =
+    ReadResult.ok [10, 20, 30] := by
+  have hk : kresolve exFS 40 [] "/b/f".toList true = some [['b'], ['f']] :=
+    kresolve_render exFS 40 [] _ exFS_bf (Node.file 1) (by decide) (by intro t; simp)
+  have hkb : kresolve exFS 40 [] "/b".toList true = some [['b']] :=
+    kresolve_render exFS 40 [] _ exFS_b.1 Node.dir (by decide) (by intro t; simp)
+  have hp : tensorPath "/b".toList "f".toList = "/b/f".toList := by decide
+  have r1 := (realpath_of_kresolve exFS 40 40 [] (RealDir.root exFS) _ 40 _ hk (Nat.le_refl _)).1
+  have r2 := (realpath_of_kresolve exFS 40 40 [] (RealDir.root exFS) _ 40 _ hkb (Nat.le_refl _)).1
+  have hv : checkContainment exFS 40 40 (render []) [] "/b".toList "f".toList = Verdict.pass := by
+    have c1 : check1 (render []) "/b".toList "f".toList = true := by decide
+    have c2 : check2 exFS 40 40 (render []) [] "/b".toList "f".toList = true := by
+      unfold check2; rw [hp, r1, r2]; decide
+    have c3 : check3 exFS 40 40 (render []) [] "/b".toList "f".toList = true := by
+      unfold check3 statNlink
+      rw [hp, r1]
+      have : kresolve exFS 40 [] (render [['b'], ['f']]) true = some [['b'], ['f']] := hk
+      rw [this]
+      decide
+    unfold checkContainment
+    rw [if_neg (by decide), if_neg (by rw [c1]; simp), if_neg (by rw [c2]; simp),
+      if_neg (by rw [c3]; simp)]
+  have ho : openFile exFS 40 [] "/b/f".toList = some 1 := by
+    unfold openFile; rw [hk]; decide
+  unfold read
+  rw [hv]
+  simp only [hp, ho]
+  decide
 
 end IrVerif.Path
